@@ -70,6 +70,7 @@ shared.emit_td(globals(), "convert is idempotent on its results", names=[k for (
 class Holder(PaneBase):
     """a dataclass whose constructor must accept already-typed arguments unchanged"""
     s: t.Set[int] = field(default_factory=set)
+    hidden: int = field(default=0, exclude=True)          # an excluded field that is NOT last
     fs: t.FrozenSet[int] = frozenset()
     dq: t.Deque[int] = field(default_factory=collections.deque)
     e: Optional[E1] = None
@@ -95,6 +96,12 @@ TIMES = (datetime.time(1, 2, 3), datetime.time(23, 59, 59, 999999))
 PATS = (re.compile('a+'), re.compile(r'^\\d{2}$'))
 FRS = (fractions.Fraction(1, 3), fractions.Fraction(-5, 2), fractions.Fraction(4, 1))
 DECS = (decimal.Decimal('1.5'), decimal.Decimal('-0.001'), decimal.Decimal('1E+3'))
+
+
+COND_FR = t.Annotated[fractions.Fraction, pane.val_range(min=0, max=1)]
+COND_DATE = t.Annotated[datetime.date, pane.Condition(lambda d: d.year >= 2000, 'this century')]
+COND_DEC = t.Annotated[decimal.Decimal, pane.Positive]
+COND_SET = t.Annotated[t.Set[int], pane.len_range(min=1)]
 
 
 def pick2(xs, sel):
@@ -158,11 +165,19 @@ def native(kind, sel, i, j):
         return PT, PT.make_unchecked(a=i, b='s'), None
     elif kind == 24:
         return PAl, PAl.make_unchecked(a_b=i, b=[j]), None
-    else:
+    elif kind == 25:
         return t.List[t.Optional[datetime.datetime]], [None, pick2(DTS, sel)], None
+    elif kind == 26:
+        return COND_FR, pick2((fractions.Fraction(1, 3), fractions.Fraction(0), fractions.Fraction(1)), sel), None
+    elif kind == 27:
+        return COND_DATE, pick2(DATES[:1] * 3, sel), None
+    elif kind == 28:
+        return t.List[COND_DEC], [decimal.Decimal('1.5')], None
+    else:
+        return COND_SET, {i, j, 5}, None
 
 
-for _k in range(26):
+for _k in range(30):
     for _s in range(3):
         try:
             (_T, _x, _f) = native(_k, _s, 1, 0)
@@ -190,10 +205,14 @@ def body_native_{lo}(kind: int, sel: int, i: int, j: int) -> int:
         got = getattr(h, fld)
         if type(got) is not type(x) or not eqv(got, x):
             return 6
+        # the dataclass instance itself is a fixed point too (serialised field by field with each field's own converter)
+        r = fixed_point(Holder, h)
+        if r:
+            return r
     return 0
 '''
-for _lo in range(0, 26, 2):
-    exec(_NAT.format(lo=_lo, hi=min(_lo + 1, 25)))
+for _lo in range(0, 30, 2):
+    exec(_NAT.format(lo=_lo, hi=min(_lo + 1, 29)))
 
 
 @obligation(pre="0 <= which <= 2 and 0 <= e <= 1", witnesses=(0,), timeout=120)
